@@ -111,6 +111,10 @@ type Vaxis struct {
 	chSigKill        chan os.Signal
 	chCursorPos      chan [2]int
 	chQuit           chan bool
+	// chInputStop is closed when the input goroutine has to stop, chInputDone
+	// when it has returned
+	chInputStop chan struct{}
+	chInputDone chan struct{}
 	winSize          Resize
 	nextSize         Resize
 	chSizeDone       chan bool
@@ -395,6 +399,24 @@ func (vx *Vaxis) PostEvent(ev Event) {
 // goroutine than the main thread.
 func (vx *Vaxis) PostEventBlocking(ev Event) {
 	vx.queue <- ev
+}
+
+// postInput inserts an event of the input goroutine into the event loop. It
+// blocks while the queue is full, but not beyond the point where the input is
+// being stopped: nobody may be reading the queue by then, and Suspend and Close
+// wait for the input goroutine
+func (vx *Vaxis) postInput(ev Event) {
+	select {
+	case vx.queue <- ev:
+		return
+	default:
+	}
+	// The queue is full
+	select {
+	case vx.queue <- ev:
+	case <-vx.chInputStop:
+		log.Warn("Event dropped, input is stopping: %T", ev)
+	}
 }
 
 // SyncFunc queues a function to be called from the main thread. vaxis will call
@@ -776,25 +798,25 @@ func (vx *Vaxis) handleSequence(seq ansi.Sequence) {
 		if vx.pastePending {
 			key.EventType = EventPaste
 		}
-		vx.PostEventBlocking(key)
+		vx.postInput(key)
 	case ansi.C0:
 		key := decodeKey(seq)
 		if vx.pastePending {
 			key.EventType = EventPaste
 		}
-		vx.PostEventBlocking(key)
+		vx.postInput(key)
 	case ansi.ESC:
 		key := decodeKey(seq)
 		if vx.pastePending {
 			key.EventType = EventPaste
 		}
-		vx.PostEventBlocking(key)
+		vx.postInput(key)
 	case ansi.SS3:
 		key := decodeKey(seq)
 		if vx.pastePending {
 			key.EventType = EventPaste
 		}
-		vx.PostEventBlocking(key)
+		vx.postInput(key)
 	case ansi.CSI:
 		switch seq.Final {
 		case 'c':
@@ -802,17 +824,17 @@ func (vx *Vaxis) handleSequence(seq ansi.Sequence) {
 				for _, ps := range seq.Parameters {
 					switch ps[0] {
 					case 4:
-						vx.PostEventBlocking(capabilitySixel{})
+						vx.postInput(capabilitySixel{})
 					}
 				}
-				vx.PostEventBlocking(primaryDeviceAttribute{})
+				vx.postInput(primaryDeviceAttribute{})
 				return
 			}
 		case 'I':
-			vx.PostEventBlocking(FocusIn{})
+			vx.postInput(FocusIn{})
 			return
 		case 'O':
-			vx.PostEventBlocking(FocusOut{})
+			vx.postInput(FocusOut{})
 			return
 		case 'R':
 			// KeyF1 or DSRCPR
@@ -846,7 +868,7 @@ func (vx *Vaxis) handleSequence(seq ansi.Sequence) {
 				switch seq.Parameters[0][0] {
 				case 2:
 					if seq.Parameters[1][0] == 0 {
-						vx.PostEventBlocking(capabilitySixel{})
+						vx.postInput(capabilitySixel{})
 					}
 				}
 				return
@@ -859,7 +881,7 @@ func (vx *Vaxis) handleSequence(seq ansi.Sequence) {
 				switch seq.Parameters[0][0] {
 				case colorThemeResp: // 997
 					m := ColorThemeMode(seq.Parameters[1][0])
-					vx.PostEventBlocking(ColorThemeUpdate{
+					vx.postInput(ColorThemeUpdate{
 						Mode: m,
 					})
 				}
@@ -879,7 +901,7 @@ func (vx *Vaxis) handleSequence(seq ansi.Sequence) {
 				}
 				switch seq.Parameters[1][0] {
 				case 1, 2:
-					vx.PostEventBlocking(synchronizedUpdates{})
+					vx.postInput(synchronizedUpdates{})
 				}
 			case 2027:
 				if len(seq.Parameters) < 2 {
@@ -888,7 +910,7 @@ func (vx *Vaxis) handleSequence(seq ansi.Sequence) {
 				}
 				switch seq.Parameters[1][0] {
 				case 1, 2:
-					vx.PostEventBlocking(unicodeCoreCap{})
+					vx.postInput(unicodeCoreCap{})
 				}
 			case 2031:
 				if len(seq.Parameters) < 2 {
@@ -897,13 +919,13 @@ func (vx *Vaxis) handleSequence(seq ansi.Sequence) {
 				}
 				switch seq.Parameters[1][0] {
 				case 1, 2:
-					vx.PostEventBlocking(notifyColorChange{})
+					vx.postInput(notifyColorChange{})
 				}
 			}
 			return
 		case 'u':
 			if len(seq.Intermediate) == 1 && seq.Intermediate[0] == '?' {
-				vx.PostEventBlocking(kittyKeyboard{})
+				vx.postInput(kittyKeyboard{})
 				return
 			}
 		case '~':
@@ -915,18 +937,18 @@ func (vx *Vaxis) handleSequence(seq ansi.Sequence) {
 				switch seq.Parameters[0][0] {
 				case 200:
 					vx.pastePending = true
-					vx.PostEventBlocking(PasteStartEvent{})
+					vx.postInput(PasteStartEvent{})
 					return
 				case 201:
 					vx.pastePending = false
-					vx.PostEventBlocking(PasteEndEvent{})
+					vx.postInput(PasteEndEvent{})
 					return
 				}
 			}
 		case 'M', 'm':
 			mouse, ok := parseMouseEvent(seq)
 			if ok {
-				vx.PostEventBlocking(mouse)
+				vx.postInput(mouse)
 			}
 			return
 		case 't':
@@ -948,7 +970,7 @@ func (vx *Vaxis) handleSequence(seq ansi.Sequence) {
 				if !report {
 					// Gate on this so we only report this
 					// once at startup
-					vx.PostEventBlocking(textAreaPix{})
+					vx.postInput(textAreaPix{})
 					return
 				}
 			case 8:
@@ -962,7 +984,7 @@ func (vx *Vaxis) handleSequence(seq ansi.Sequence) {
 					// once at startup. This also means we
 					// can set the size directly and won't
 					// have race conditions
-					vx.PostEventBlocking(textAreaChar{})
+					vx.postInput(textAreaChar{})
 					return
 				}
 				// Nobody waits for an unsolicited report, don't block
@@ -984,7 +1006,7 @@ func (vx *Vaxis) handleSequence(seq ansi.Sequence) {
 					resize := vx.caps.inBandResize
 					vx.mu.Unlock()
 					if !resize {
-						vx.PostEventBlocking(inBandResizeEvents{})
+						vx.postInput(inBandResizeEvents{})
 					}
 					vx.Resize()
 				}
@@ -996,7 +1018,7 @@ func (vx *Vaxis) handleSequence(seq ansi.Sequence) {
 		if vx.pastePending {
 			key.EventType = EventPaste
 		}
-		vx.PostEventBlocking(key)
+		vx.postInput(key)
 	case ansi.DCS:
 		switch seq.Final {
 		case 'r':
@@ -1018,9 +1040,9 @@ func (vx *Vaxis) handleSequence(seq ansi.Sequence) {
 				}
 				switch vals[0] {
 				case hexEncode("Smulx"):
-					vx.PostEventBlocking(styledUnderlines{})
+					vx.postInput(styledUnderlines{})
 				case hexEncode("RGB"):
-					vx.PostEventBlocking(truecolor{})
+					vx.postInput(truecolor{})
 				}
 			case '$':
 				// DECRQSS response (DECRPSS)
@@ -1051,10 +1073,10 @@ func (vx *Vaxis) handleSequence(seq ansi.Sequence) {
 				if string(seq.Data) == hexEncode("~VTE") {
 					// VTE supports styled underlines but
 					// doesn't respond to XTGETTCAP
-					vx.PostEventBlocking(styledUnderlines{})
+					vx.postInput(styledUnderlines{})
 				}
 			case '>':
-				vx.PostEventBlocking(terminalID(seq.Data))
+				vx.postInput(terminalID(seq.Data))
 			}
 		}
 	case ansi.APC:
@@ -1062,7 +1084,7 @@ func (vx *Vaxis) handleSequence(seq ansi.Sequence) {
 			return
 		}
 		if strings.HasPrefix(seq.Data, "G") {
-			vx.PostEventBlocking(kittyGraphics{})
+			vx.postInput(kittyGraphics{})
 		}
 	case ansi.OSC:
 		if strings.HasPrefix(string(seq.Payload), "4") {
@@ -1074,21 +1096,21 @@ func (vx *Vaxis) handleSequence(seq ansi.Sequence) {
 			if vx.CanReportColor() {
 				offer(vx.chColor, string(seq.Payload))
 			}
-			vx.PostEventBlocking(capabilityOsc4{})
+			vx.postInput(capabilityOsc4{})
 		}
 		if strings.HasPrefix(string(seq.Payload), "10") {
 			// Similar to OSC 4
 			if vx.CanReportForegroundColor() {
 				offer(vx.chFg, string(seq.Payload))
 			}
-			vx.PostEventBlocking(capabilityOsc10{})
+			vx.postInput(capabilityOsc10{})
 		}
 		if strings.HasPrefix(string(seq.Payload), "11") {
 			// Similar to OSC 4
 			if vx.CanReportBackgroundColor() {
 				offer(vx.chBg, string(seq.Payload))
 			}
-			vx.PostEventBlocking(capabilityOsc11{})
+			vx.postInput(capabilityOsc11{})
 		}
 		if strings.HasPrefix(string(seq.Payload), "52") {
 			vals := strings.Split(string(seq.Payload), ";")
@@ -1391,9 +1413,17 @@ func (vx *Vaxis) Suspend() error {
 		return nil
 	}
 	vx.suspended = true
+	// Release the input goroutine if it is waiting for room in the queue
+	close(vx.chInputStop)
 	vx.parser.Close()
 	io.WriteString(vx.console, primaryAttributes)
 	vx.parser.WaitClose()
+	// The input goroutine has seen the end of the parser, or will right
+	// away. Wait for it so that nothing of it is left behind (unless it is
+	// the one shutting us down)
+	if vx.chInputDone != nil {
+		<-vx.chInputDone
+	}
 
 	vx.disableModes()
 	vx.exitAltScreen()
@@ -1440,11 +1470,16 @@ func (vx *Vaxis) openTty(tgts []*os.File) error {
 	// Resume installs the next one
 	parser := ansi.NewParser(vx.console)
 	vx.parser = parser
+	done := make(chan struct{})
+	vx.chInputStop = make(chan struct{})
+	vx.chInputDone = done
 
 	go func() {
+		defer close(done)
 		defer func() {
 			if err := recover(); err != nil {
 				vx.drainParser()
+				vx.chInputDone = nil
 				vx.Close()
 				panic(err)
 			}
@@ -1461,9 +1496,10 @@ func (vx *Vaxis) openTty(tgts []*os.File) error {
 				}
 			case <-vx.chSigWinSz:
 				atomicStore(&vx.resize, true)
-				vx.PostEventBlocking(Redraw{})
+				vx.postInput(Redraw{})
 			case <-vx.chSigKill:
 				vx.drainParser()
+				vx.chInputDone = nil
 				vx.Close()
 				return
 			}
